@@ -1,5 +1,6 @@
 import Proofs.Lemmas.ForkChoiceInv2
 import Proofs.Lemmas.ForkChoiceBest
+import Proofs.Lemmas.ForkChoicePrune
 /-! Links invariant over all admissible operation sequences: while the connections are flagged up to date, every
 best-child / best-descendant link is the GHOST choice (`MInv3`). -/
 namespace Zrnt.ForkChoice
@@ -246,55 +247,6 @@ theorem li_inner (fc : FC) (I : FI fc) (hl : LI fc.pa) (f j : Checkpoint) (b : O
       | panic => trivial
       | spin => trivial
 
-theorem li_updateJustified (fc : FC) (I : FI fc) (hl : LI fc.pa) (t : Root) (j f : Checkpoint)
-    (b : Option (List Nat)) (hq : f = fc.finalized) : OutQ LQ (fc.updateJustified t j f b) := by
-  unfold updateJustified
-  apply outQ_withLock
-  simp only
-  split
-  · exact hl
-  · have hafter : ∀ fc1 : FC, FI fc1 → LI fc1.pa → fc1.finalized = f → OutQ LQ (
-        match fc1.updateJustifiedInner f j b with
-        | .panic => .panic
-        | .blocked => .blocked
-        | .err fc => .err fc
-        | .ok fc _ =>
-          if fc1.finalized ≠ f then
-            match ({ fc with pin := none } : FC).pa.onPrune f.root (f.epoch * ({ fc with pin := none } : FC).spe) with
-            | .panic => .panic
-            | .spin => .blocked
-            | .err pa => .err { ({ fc with pin := none } : FC) with pa := pa }
-            | .ok pa _ => .ok { ({ fc with pin := none } : FC) with pa := pa } ()
-          else .ok fc ()) := by
-      intro fc1 I1 hl1 hf1
-      have hi := li_inner fc1 I1 hl1 f j b
-      cases he : fc1.updateJustifiedInner f j b with
-      | panic => trivial
-      | blocked => trivial
-      | err s => rw [he] at hi; exact hi
-      | ok s u =>
-        rw [he] at hi
-        simp only [hf1, ne_eq, not_true_eq_false, if_false]
-        exact hi
-    cases hpin : fc.pin with
-    | none => exact hafter _ I hl hq.symm
-    | some pin =>
-      simp only
-      split
-      · have hc := conn_inSubtree fc.pa I.wf pin.root t
-        obtain ⟨pr', res, e, hw, hf⟩ := inSubtree_wf fc.pa I.wf pin.root t
-        rw [e] at hc ⊢
-        obtain ⟨u, i⟩ := res
-        simp only
-        have hl' : LI pr' := li_conn fc.pa pr' I.wf I.chain hl hc
-        have I' : FI { fc with pa := pr', held := true } := PInv.frame I hw hf
-        split
-        · exact hl'
-        · split
-          · exact hl'
-          · exact hafter _ I' hl' hq.symm
-      · exact hafter _ I hl hq.symm
-
 theorem leadsF_sinkLog (pr : PA) (l : List (NodeRef × Bool × Bool)) :
     ∀ fuel i, leadsF { pr with sinkLog := l } fuel i = leadsF pr fuel i := by
   intro fuel
@@ -321,6 +273,78 @@ theorem li_sinkLog (pr : PA) (l : List (NodeRef × Bool × Bool)) (hl : LI pr) :
   · intro i n hn
     rw [hleads]
     exact a2 i n hn
+
+/-- `OnPrune` keeps the links invariant: either only the sink log changed, or the connections are flagged stale -/
+theorem li_onPrune (pr : PA) (h : WF pr) (hl : LI pr) (root : Root) (slot : Nat) :
+    match pr.onPrune root slot with
+    | .ok s _ => LI s
+    | .err s => LI s
+    | _ => True := by
+  rcases onPrune_cases pr h root slot with ⟨_, e⟩ | ⟨a, _, l, e | ⟨_, e⟩ | ⟨_, e⟩⟩
+  · rw [e]; exact hl
+  · rw [e]; exact li_sinkLog pr l hl
+  · rw [e]; exact li_sinkLog pr l hl
+  · rw [e]; intro hu; simp at hu
+
+theorem li_updateJustified (fc : FC) (I : FI fc) (hl : LI fc.pa) (t : Root) (j f : Checkpoint)
+    (b : Option (List Nat)) : OutQ LQ (fc.updateJustified t j f b) := by
+  unfold updateJustified
+  apply outQ_withLock
+  simp only
+  split
+  · exact hl
+  · have hafter : ∀ fc1 : FC, FI fc1 → LI fc1.pa → OutQ LQ (
+        match fc1.updateJustifiedInner f j b with
+        | .panic => .panic
+        | .blocked => .blocked
+        | .err fc => .err fc
+        | .ok fc _ =>
+          if fc1.finalized ≠ f then
+            match ({ fc with pin := none } : FC).pa.onPrune f.root (f.epoch * ({ fc with pin := none } : FC).spe) with
+            | .panic => .panic
+            | .spin => .blocked
+            | .err pa => .err { ({ fc with pin := none } : FC) with pa := pa }
+            | .ok pa _ => .ok { ({ fc with pin := none } : FC) with pa := pa } ()
+          else .ok fc ()) := by
+      intro fc1 I1 hl1
+      have hi := li_inner fc1 I1 hl1 f j b
+      have hk := inner_inv fc1 I1 f j b
+      cases he : fc1.updateJustifiedInner f j b with
+      | panic => trivial
+      | blocked => trivial
+      | err s => rw [he] at hi; exact hi
+      | ok s u =>
+        rw [he] at hi hk
+        simp only
+        split
+        · have hp := li_onPrune s.pa hk.1.wf hi f.root (f.epoch * s.spe)
+          revert hp
+          show (match s.pa.onPrune f.root (f.epoch * s.spe) with
+              | .ok q _ => LI q | .err q => LI q | _ => True) → _
+          cases s.pa.onPrune f.root (f.epoch * s.spe) with
+          | ok pa u => exact fun hp => hp
+          | err pa => exact fun hp => hp
+          | panic => exact fun _ => trivial
+          | spin => exact fun _ => trivial
+        · exact hi
+    cases hpin : fc.pin with
+    | none => exact hafter _ I hl
+    | some pin =>
+      simp only
+      split
+      · have hc := conn_inSubtree fc.pa I.wf pin.root t
+        obtain ⟨pr', res, e, hw, hf⟩ := inSubtree_wf fc.pa I.wf pin.root t
+        rw [e] at hc ⊢
+        obtain ⟨u, i⟩ := res
+        simp only
+        have hl' : LI pr' := li_conn fc.pa pr' I.wf I.chain hl hc
+        have I' : FI { fc with pa := pr', held := true } := PInv.frame I hw hf
+        split
+        · exact hl'
+        · split
+          · exact hl'
+          · exact hafter _ I' hl'
+      · exact hafter _ I hl
 
 theorem li_stepLive (fc : FC) (hh : fc.held = false) (I : FI fc) (hl : LI fc.pa) (op : Op) (hok : StepOK (.live fc) op) :
     match (stepLive fc op).1 with
@@ -368,7 +392,7 @@ theorem li_stepLive (fc : FC) (hh : fc.held = false) (I : FI fc) (hl : LI fc.pa)
         rw [this]
         exact (wsumFrom_congr fc.pa { fc.pa with sinkLog := [] } fc.balances i fc.votes 0 (fun _ _ => rfl)).symm⟩
     have hl0 : LI ({ fc.pa with sinkLog := [] } : PA) := li_sinkLog fc.pa [] hl
-    have hs := li_updateJustified { fc with pa := { fc.pa with sinkLog := [] } } I0 hl0 t j f b hok
+    have hs := li_updateJustified { fc with pa := { fc.pa with sinkLog := [] } } I0 hl0 t j f b
     unfold stepLive
     simp only
     cases he : FC.updateJustified { fc with pa := { fc.pa with sinkLog := [] } } t j f b with
